@@ -7,6 +7,7 @@ import (
 	"github.com/refraction-networking/utls/zz_verif/refsrv"
 	"github.com/refraction-networking/utls/zz_verif/simnet"
 	"github.com/refraction-networking/utls/zz_verif/simrt"
+	"github.com/refraction-networking/utls/zz_verif/wire"
 )
 
 // C13: the client never settles on a protocol version it did not advertise.
@@ -15,7 +16,7 @@ func init() {
 	Register("C13", &Info{
 		Run:   runC13,
 		Quick: 9000, Thor: 300000,
-		Rule: "a world = one fingerprint (every parrot by stratum, randomized, generated specs, fingerprinted copies) with a caller Config that may carry its own MinVersion/MaxVersion/ALPN/curves or was used before by a connection of another fingerprint; against (a) the repository or std server capped at each version 1.0-1.3, (b) the reference server acting as a legacy server that negotiates from legacy_version only and ignores supported_versions, at 1.0 / 1.1 / 1.2, (c) the reference server negotiating TLS 1.2 or lower with the RFC 8446 downgrade sentinel in its random; oracle: whenever the client completes, the negotiated version is one its ON-WIRE hello advertised - a member of supported_versions when that extension is present, otherwise within [spec minimum, legacy_version]; with the sentinel and TLS 1.3 on offer the client must abort; non-trivial = the server negotiated (or tried) a version below the client's maximum; distinct = (fingerprint, server kind, version, sentinel)",
+		Rule: "a world = one fingerprint (every parrot by stratum, randomized, generated specs, fingerprinted copies; HelloGolang with Config version bounds left at zero or set explicitly) with a caller Config that may carry its own MinVersion/MaxVersion/ALPN/curves or was used before by a connection of another fingerprint; against (a) the repository or std server capped at each version 1.0-1.3, (b) the reference server acting as a legacy server that negotiates from legacy_version only and ignores supported_versions, at 1.0 / 1.1 / 1.2, (c) the reference server negotiating TLS 1.2 or lower with the RFC 8446 downgrade sentinel in its random; oracle: whenever the client completes, the negotiated version is one its ON-WIRE hello advertised - a member of supported_versions when that extension is present, otherwise within [spec minimum, legacy_version]; with the sentinel and TLS 1.3 on offer the client must abort; non-trivial = the server negotiated (or tried) a version below the client's maximum; distinct = (fingerprint, server kind, version, sentinel)",
 		Assumptions: []string{"the spec minimum of a parrot is read from UTLSIdToSpec (TLSVersMin, or the lowest supported_versions entry, or TLS 1.0)"},
 		Real:        []string{"utls client from /repo", "utls or std server for (a)"},
 		Stub:        []string{"reference server (sim/refsrv) as legacy / sentinel-setting server", "transport, clock, crypto/rand"},
@@ -30,10 +31,28 @@ func runC13(c *Ctx) {
 	}
 	w := c.NewWorld(simrt.Config{})
 	f := PickFingerprint(ch, stratum, negCfg)
-	dry, err := DryHello(negCfg(), f.IDI.ID, f.Spec())
-	if err != nil {
-		c.R.Harness = "dry build: " + err.Error()
-		return
+	// HelloGolang: the hello is defined by the caller's Config, whose version bounds may be left at
+	// their zero defaults (maximum = TLS 1.3) or set explicitly
+	negCfg := negCfg
+	golang := ""
+	if stratum < 0 && ch.Bool(12, "golang") {
+		f = &Fingerprint{Kind: "golang", IDI: IDInfo{"Golang", tls.HelloGolang}}
+		gmax := []uint16{0, 0, tls.VersionTLS13, tls.VersionTLS12}[ch.Pick(4, "golang-max")]
+		gmin := []uint16{0, tls.VersionTLS10, tls.VersionTLS12}[ch.Pick(3, "golang-min")]
+		golang = fmt.Sprintf(" golang-min=%x-max=%x", gmin, gmax)
+		negCfg = func() *tls.Config {
+			cfg := (&tls.Config{ServerName: "example.test", RootCAs: Roots(), OmitEmptyPsk: true, PreferSkipResumptionOnNilExtension: true})
+			cfg.MinVersion, cfg.MaxVersion = gmin, gmax
+			return cfg
+		}
+	}
+	var dry *wire.ClientHello
+	if golang == "" {
+		var err error
+		if dry, err = DryHello(negCfg(), f.IDI.ID, f.Spec()); err != nil {
+			c.R.Harness = "dry build: " + err.Error()
+			return
+		}
 	}
 	var specMin uint16
 	if sp0 := f.Spec(); sp0 != nil {
@@ -41,7 +60,10 @@ func runC13(c *Ctx) {
 	} else if s, err := tls.UTLSIdToSpec(f.IDI.ID); err == nil {
 		specMin = s.TLSVersMin
 	}
-	of := OfferOf(dry, specMin)
+	of := &Offer{}
+	if dry != nil {
+		of = OfferOf(dry, specMin)
+	}
 	kind := []string{"capped", "legacy", "legacy", "sentinel"}[ch.Pick(4, "kind")]
 	ver := []uint16{0x0301, 0x0302, 0x0303, 0x0304}[ch.Pick(4, "ver")]
 	peer := ch.Pick(2, "peer")
@@ -79,7 +101,7 @@ func runC13(c *Ctx) {
 			c.Fault("shared-config", 1)
 		}
 	}
-	c.R.Class = fmt.Sprintf("%s/%s %s v=%x peer=%s offered=%x %s", f.Kind, f.IDI.Name, kind, ver, peerName(peer), of.Versions, noise)
+	c.R.Class = fmt.Sprintf("%s/%s %s v=%x peer=%s offered=%x %s%s", f.Kind, f.IDI.Name, kind, ver, peerName(peer), of.Versions, noise, golang)
 	sp := &ConnSpec{ID: f.IDI.ID, Spec: f.Spec(), CCfg: ccfg, Peer: peer, SCfg: scfg, StdCfg: stdcfg, RefCfg: rcfg, Payload: [][]byte{[]byte("ping")},
 		Setup: func(l *simnet.Link) { l.Frag = ch.Bool(30, "frag") }}
 	o := RunConn(c, w, sp)
